@@ -188,6 +188,19 @@ def audit(pid, timeout=1200, only=None):
     return {"ok": not problems, "theorems": thms, "axioms": axioms, "problems": problems, "log": out[-4000:]}
 
 
+def source_translation_info():
+    """what the source translators produced on this run (lean/BpProofs/Gen/Src*.lean): file, hash, translated functions"""
+    out = []
+    gen = os.path.join(LEAN, "BpProofs", "Gen")
+    for fn in sorted(os.listdir(gen)) if os.path.isdir(gen) else []:
+        if fn.startswith("Src") and fn.endswith(".lean"):
+            txt = open(os.path.join(gen, fn)).read()
+            out.append({"file": "lean/BpProofs/Gen/" + fn, "sha1": hashlib.sha1(txt.encode()).hexdigest()[:12],
+                        "translated": re.findall(r"^def ([A-Za-z0-9_.']+)", txt, re.M),
+                        "failed": re.findall(r"TRANSLATION FAILED: ([^\n]*)", txt)})
+    return out
+
+
 class Driver:
     """The model's executable definitions behind the line protocol."""
 
@@ -337,7 +350,7 @@ def write_evidence(chk, violations, extra_assumptions=()):
         "known_findings_printed": chk.extra.get("known_printed", []),
         "tree": repo_id(),
     }
-    for k in ("exhaustive", "explanation", "partial", "statements"):
+    for k in ("exhaustive", "explanation", "partial", "statements", "source_translation"):
         if k in chk.extra:
             cov[k] = chk.extra[k]
     ev = {
